@@ -216,15 +216,16 @@ impl<'a, Version, Purpose> Default for PasetoParser<'a, Version, Purpose> {
     fn default() -> Self {
         let mut me = Self::new();
         me.validate_claim(ExpirationClaim::default(), &|_, value| {
-            //let's get the expiration claim value
-            let val = value.as_str().unwrap_or_default();
-
             //check if this is a non-expiring token
-            if val.is_empty() {
+            if value.is_null() {
                 //this means the claim wasn't found, which means this is a non-expiring token
                 //and we can just skip this validation
                 return Ok(());
             }
+            //let's get the expiration claim value; anything but a string is malformed
+            let val = value
+                .as_str()
+                .ok_or_else(|| PasetoClaimError::RFC3339Date(value.to_string()))?;
             //turn the value into a datetime
             let datetime =
                 time::OffsetDateTime::parse(val, &Rfc3339).map_err(|_| PasetoClaimError::RFC3339Date(val.to_string()))?;
@@ -241,12 +242,14 @@ impl<'a, Version, Purpose> Default for PasetoParser<'a, Version, Purpose> {
             }
         })
             .validate_claim(NotBeforeClaim::default(), &|_, value| {
-                //let's get the expiration claim value
-                let val = value.as_str().unwrap_or_default();
                 //if there is no value here, then the user didn't provide the claim so we just move on
-                if val.is_empty() {
+                if value.is_null() {
                     return Ok(());
                 }
+                //let's get the not before claim value; anything but a string is malformed
+                let val = value
+                    .as_str()
+                    .ok_or_else(|| PasetoClaimError::RFC3339Date(value.to_string()))?;
                 //otherwise let's continue with the validation
                 //turn the value into a datetime
                 let not_before_time =
